@@ -82,7 +82,12 @@ theorem eval_step (ih : SAll ld fuel) (env : EnvId) (n : Node) (hcf : cfN n = tr
     rcases hb.cases with ⟨a, s1, t1, e1, e2, h1⟩ | ⟨v, m, p, tr, s1, t1, e1, e2, h1⟩ | ⟨f, s1, t1, e1, e2, h1⟩
     · rw [e1, e2]; exact ⟨rfl, h1.restoreVars _ _⟩
     · rw [e1, e2]; exact ⟨rfl, rfl, rfl, rfl, (h1.foldl_remove _ _).restoreVars _ _⟩
-    · rw [e1, e2]; exact ⟨rfl, h1⟩
+    · rw [e1, e2]
+      cases f with
+      | syn se => exact ⟨rfl, (h1.foldl_remove _ _).restoreVars _ _⟩
+      | oof => exact ⟨rfl, h1⟩
+      | unsupported w => exact ⟨rfl, h1⟩
+      | host k => exact ⟨rfl, h1⟩
   | call => simp [cfN] at hcf
   | ite => simp only [cfN, Bool.and_eq_true] at hcf; unfold Ckl.eval; sim!
   | isIn => simp only [cfN, Bool.and_eq_true] at hcf; unfold Ckl.eval; sim!
